@@ -87,6 +87,28 @@ def mutants(argv):
 
 def benign(argv):
     bad = 0
+    # refactorings written by sub-agents that keep the property (meta.json verdict "benign"): every listed check must stay quiet
+    for meta_path in sorted(glob.glob(os.path.join(core.ROOT, "benign", "*", "meta.json"))):
+        d = os.path.dirname(meta_path)
+        meta = json.load(open(meta_path))
+        if meta.get("verdict") != "benign" or (len(argv) > 1 and os.path.basename(d) not in argv[1:]):
+            continue
+        try:
+            scratch = _scratch_with_patch(os.path.join(d, "patch.diff"))
+        except core.HarnessError as e:
+            print(f"[selftest-benign] {os.path.basename(d):28s} STALE: {str(e)[:160]}", flush=True)
+            bad += 1
+            continue
+        try:
+            for pid in meta.get("checks", [meta["property"]]):
+                rc, sigs, wall, tail = _run_check(pid, "quick", scratch)
+                status = "ok" if rc == 0 else f"EXIT {rc} {sigs[:2]}"
+                bad += 0 if rc == 0 else 1
+                print(f"[selftest-benign] {os.path.basename(d):28s} {pid} {status} ({wall:.0f}s)", flush=True)
+        finally:
+            shutil.rmtree(scratch, ignore_errors=True)
+    if len(argv) > 1:
+        return 0 if bad == 0 else 1
     for patch in sorted(glob.glob(os.path.join(core.ROOT, "mutants", "benign-*.patch"))):
         scratch = _scratch_with_patch(patch)
         try:
